@@ -16,9 +16,13 @@ CONFIG = {
              "unknown ids); dangle = a name-table record removed; cut / dup = a record removed / duplicated; rand = reader-grammar-"
              "directed random records (random info bytes followed by exactly the fields they demand, all repetition / point-list / "
              "compact-trapezoid / property-value types incl. unknown ones, layers above 2^32, properties after every kind of name "
-             "record and after LAYERNAME). When the covered strict decoder accepts the stream the driver also prints S = dump of "
-             "view(L) (the claim of oas_reader_accepts_spec_partial, checked on the real reader). Non-trivial: streams longer than "
-             "the 14-byte header; distinct = distinct byte strings"),
+             "record and after LAYERNAME); reader = corpus/C04/*.case, the witnesses of the known deviations. Whenever the strict "
+             "decoder spec_oas_decode accepts the stream the driver also prints S = dump of view(L) (property C04 on the real "
+             "reader); for a stream outside the covered decoder the S line carries ` #guard=<c1..c8>` (first failed guard, "
+             "diag_oas), which becomes the finding key oas-reader:<...> when S and I differ; no S line when only (c5) CTRAPEZOID "
+             "type 25 (modal height: specification not settled), (c7) or a dropped property with a dangling reference fail (not "
+             "legal OASIS, the strict decoder is lenient). Non-trivial: streams longer than the 14-byte header; "
+             "distinct = distinct byte strings"),
     "trusted": ["harness/c04r.cpp dump_lib and ocaml/c04r_driver.ml dump: canonical text, circle recognition (a polygon of n >= 5 "
                 "vertices on the circle ellipse() samples is printed as circle cx cy r), double conversion of reals",
                 "harness/oas_scan.hpp (CBLOCK splicing, record offsets for the malformed cases), harness/oas_encoder.hpp"],
@@ -29,14 +33,39 @@ CONFIG = {
 }
 
 
+# finding keys of the guards of the covered decoder (coq/OasisRead.v, (c1)-(c8)); the driver appends ` #guard=<name>` to the S
+# line of a stream that spec_oas_decode accepts and cov_oas_decode does not
+GUARD_KEYS = {
+    "c1": "oas-reader:nonminimal-byte-field",
+    "c2": "oas-reader:layer-above-32-bits",
+    "c3": "oas-reader:count-wrap",
+    "c4": "oas-reader:empty-path",
+    "c6-textstring": "oas-reader:property-after-textstring",
+    "c6-layername": "oas-reader:property-after-layername",
+}
+# no S line (hence no key) for c5 (CTRAPEZOID 25 modal height: not settled), c7 (two CELL records with one reference number) and
+# c6-after-PROPNAME/PROPSTRING / c8 (dropped property with a dangling reference): the strict decoder is lenient there
+
+
+def _split_guard(s):
+    s = s.strip()
+    i = s.rfind(" #guard=")
+    if i < 0:
+        return s, None
+    return s[:i], s[i + 8:]
+
+
 def _abnormal(s):
     return s in ("crash", "hang")
 
 
 def same(kind, impl, model):
-    i, m = impl.strip(), model.strip()
+    i = impl.strip()
+    m, guard = _split_guard(model)
     if i == m:
         return True
+    if guard is not None:  # an S line of an uncovered stream: the strict decoder's layout, compared exactly
+        return False
     if m == "cblock":      # record 34 reached: outside the model
         return True
     if m == "crash":       # the C++ has undefined behaviour on this stream: any result is allowed
@@ -51,4 +80,8 @@ def nontrivial(kind, payload, r):
 
 
 def classify(kind, payload, r, m):
-    return "oas-reader-" + kind
+    """key of a failed S comparison: the guard the stream fails, or a reader/decoder disagreement on a covered stream"""
+    _, guard = _split_guard(m.get("S", ""))
+    if guard is None:
+        return "oas-reader-covered-" + kind       # contradicts oas_reader_accepts_spec_partial + the model tie
+    return GUARD_KEYS.get(guard, "oas-reader:unclassified")
